@@ -99,6 +99,12 @@ def lrFinish (trim : Bool) (s : LRSt) (steps : Nat) : LROut :=
   let (_, pt, cm) := lrDrain false s.input s.pt s.comments
   ⟨.ok, s.actions.reverse, .open_ none :: (pt.reverse.flatMap (·.events)) ++ [.close], cm.reverse, steps⟩
 
+/-- `lookahead_token_type(0)`: type of the next significant token, EOI (0) at the end. -/
+def nextTerm (inp : List MTok) : Nat :=
+  match inp.head? with
+  | some t => t.ty
+  | none => 0
+
 def depthExceeded (o : Opts) (s : LRSt) : Bool :=
   match o.maxDepth with
   | some m => decide (s.states.length > m)
@@ -110,9 +116,7 @@ def lrLoop (T : LRTables) (o : Opts) : Nat → LRSt → Nat → LROut
     if depthExceeded o s then lrAbort s (.depth s.states.length) steps else
     let (inp, pt, cm) := lrDrain o.trim s.input s.pt s.comments
     let s := { s with input := inp, pt := pt, comments := cm }
-    let term := match inp.head? with
-      | some t => t.ty
-      | none => 0
+    let term := nextTerm inp
     match s.states with
     | [] => lrAbort s .internal steps
     | cur :: _ =>
